@@ -18,6 +18,18 @@ theorem getElem?_of_lt_length {α : Type} {l : List α} {k : Nat} (h : k < l.len
 theorem lt_length_of_getElem? {α : Type} {l : List α} {k : Nat} {a : α} (h : l[k]? = some a) :
     k < l.length := (List.getElem?_eq_some_iff.1 h).1
 
+theorem mem_take_of_getElem? {α : Type} {l : List α} {j k : Nat} {d : α} (h : l[j]? = some d)
+    (hj : j < k) : d ∈ l.take k := by
+  apply List.mem_of_getElem? (i := j)
+  rw [List.getElem?_take, if_pos hj, h]
+
+theorem mem_drop_take_of_getElem? {α : Type} {l : List α} {i j m : Nat} {d : α} (h : l[j]? = some d)
+    (hi : i ≤ j) (hj : j < i + m) : d ∈ (l.drop i).take m := by
+  apply mem_take_of_getElem? (j := j - i) _ (by omega)
+  rw [List.getElem?_drop]
+  have : i + (j - i) = j := by omega
+  rw [this, h]
+
 /-! ### decimal rendering -/
 
 theorem decValue_append_single (xs : List Nat) (c : Nat) :
